@@ -316,6 +316,13 @@ OPERANDS = [
     ('_Assign_targets', 'a = b ='), ('_decorator_list', '@a\n@b(c)'), ('_type_params', 'T, *Ts'), ('type_param', 'T: int'), ('_comprehension_ifs', 'if a if b'),
     ('comprehension', 'for a in b if c'), ('_comprehensions', 'for a in b for c in d'), ('Dict', '{a: b}'), ('Set', '{a}'), ('MatchMapping', '{1: a}'), ('match_case', 'case a: pass'),
     ('ExceptHandler', 'except E: pass'), ('_Import_names', 'a, b.c'), ('_ImportFrom_names', 'a, b as c'), ('operator', '+'),
+    ('arguments', '*a, b=c'), ('arguments', '*, k=v'), ('arguments', 'a, *b, c'), ('arguments', 'a=1, b=2'), ('arguments', '*a, b'), ('arguments', 'a, /'), ('arguments', '**kw'),
+    ('arguments', 'a: int, b: str = "s"'), ('arguments', '*a: ann'), ('arguments', 'a, *, b=1, c'), ('arguments', 'x, *a, b=(c, 1), d'),
+    ('exec', 'a;  # note'), ('exec', 'a, b; \\\n'), ('exec', 'a;'), ('exec', 'a  # c'), ('exec', '(a,\n b);  # c'), ('stmt', 'a;  # c'), ('stmt', 'a;'), ('exec', 'a; b'), ('exec', '# lead\na  # trail\n'),
+    ('single', 'a;  # note'), ('exec', 'f(x); # note\n# more'), ('exec', '(a) ; # note'),
+    ('_arglikes', '*a, b=c'), ('_arglikes', 'a, **k'), ('_arglikes', ''), ('_withitems', '(a, b) as c'), ('_withitems', 'a, b'), ('_aliases', 'a as b, c.d as e'),
+    ('_Assign_targets', 'a ='), ('_Assign_targets', 'a, b = c ='), ('_decorator_list', '@a.b'), ('_type_params', 'T: int, **P'), ('keyword', 'k=(a, b)'), ('withitem', '(a, b)'),
+    ('_comprehensions', 'for a in b if c for d in e'), ('_comprehension_ifs', 'if (a, b)'),
 ]
 MODES = ['expr', 'pattern', 'Tuple', 'List', 'Set', 'stmt', 'stmts', 'exec', 'Expr', '_arglikes', '_arglike', 'arguments', 'arguments_lambda', '_withitems', 'withitem', '_aliases', 'alias',
          '_Import_names', '_ImportFrom_names', '_Assign_targets', '_decorator_list', '_type_params', 'type_param', 'Dict', 'MatchMapping', 'keyword', 'arg', '_comprehension_ifs',
